@@ -1,10 +1,12 @@
 (** Property C01 — cutting a molecule into fragments and resolving gives the molecule back.
-    What is PROVED here (for every base graph, table and search order): the bonding step.  If
-    every cut bond between two fragments is written as a dedicated, uniquely labelled compatible
-    descriptor pair, the first-match loop of that base edge (order = number of cut bonds) creates
-    exactly the cut bonds — the set of created (atom, descriptor, atom, descriptor) tuples is a
-    permutation of the cut pairs — and [dedicated_b], the executable test of that hypothesis run
-    on every generated input, is sound.  Together with C03 (orders, no descriptor reused), C02
+    What is PROVED here (for every base graph, table and search order): the WHOLE bonding step.
+    If every cut bond is written as a dedicated, uniquely labelled compatible descriptor pair
+    and the labels of different base edges differ on every fragment they share, then the
+    bond-creation fold over all base edges (each with order = number of its cut bonds) creates
+    exactly the cut bonds of the molecule — the created (atom, descriptor, atom, descriptor)
+    tuples are a permutation of all cut pairs ([C01_bonding_step]; [C01_bonding_partial] is the
+    one-edge version) — and [dedicated_b] / [disjoint_edges_b], the executable tests of these
+    hypotheses run on every generated input, are sound.  Together with C03 (orders, no descriptor reused), C02
     (each coarse node is a copy of its fragment), C09 (hydrogen completion) and C13 (descriptor
     stripping for every rendering) this composes to the property; the end-to-end equality
     "resolve(cut M) = H-complete(M) = resolve(single M)" through pysmiles' parser and aromaticity
@@ -13,7 +15,7 @@
 From Coq Require Import String.
 From Coq Require Import List Ascii ZArith Bool Permutation.
 From CGV Require Import Base.PyBase Base.PyVal Gen.ResolveGen Resolve.Bonding Resolve.BondingDefs
-     Resolve.BondingSpec Resolve.BondingProofs Resolve.BondingCheck Resolve.CutCheck Resolve.CutBonding.
+     Resolve.BondingSpec Resolve.BondingProofs Resolve.BondingCheck Resolve.CutCheck Resolve.CutBonding Resolve.CutFold.
 Import ListNotations.
 Open Scope Z_scope.
 
@@ -23,6 +25,17 @@ Theorem C01_bonding_partial : forall legacy arom L a b s acc s' acc',
   exists new, acc' = acc ++ new /\ Permutation (map bond_cp new) L /\
               Forall (fun bd => b_src bd = a /\ b_tgt bd = b) new.
 Proof. exact unique_labels_forced. Qed.
+
+Theorem C01_bonding_step : forall legacy arom ES s acc s' acc',
+  wf_state s -> Forall (ded_in legacy s) ES -> ForallOrdPairs disjoint_edges ES ->
+  edges_from_bonding legacy arom (map edge_of ES) s acc = Ok (s', acc') ->
+  exists new, acc' = acc ++ new /\ Permutation (map bond_cp new) (concat (map ce_L ES)) /\
+              Forall (fun bd => exists e, In e ES /\ b_src bd = ce_a e /\ b_tgt bd = ce_b e) new.
+Proof. exact forced_fold. Qed.
+
+Theorem C01_disjointness_test_sound : forall es,
+  pairwise_b disjoint_edges_b es = true -> ForallOrdPairs disjoint_edges es.
+Proof. exact pairwise_b_sound. Qed.
 
 Theorem C01_hypothesis_test_sound : forall legacy sr tg L,
   dedicated_b legacy sr tg L = true -> dedicated legacy sr tg L.
@@ -37,5 +50,16 @@ Example C01_nonvacuous :
   exists s' acc', edge_loop true (fun _ => false) 2 0 1 s [] = Ok (s', acc') /\ length acc' = 2%nat.
 Proof. split; [vm_compute; reflexivity|]. eexists. eexists. split; [vm_compute; reflexivity|reflexivity]. Qed.
 
+(** non-vacuity of the fold theorem: three fragments in a row, two cuts on the middle one *)
+Example C01_step_nonvacuous :
+  let s := [(0, [(1, [S "$a1"])]); (1, [(2, [S "$a1"]); (3, [S ">b2"])]); (2, [(5, [S "<b2"])])] in
+  let ES := [(0, 1, [(1, S "$a1", 2, S "$a1")]); (1, 2, [(3, S ">b2", 5, S "<b2")])] in
+  forallb (fun e => dedicated_b true (slookup (ce_a e) s) (slookup (ce_b e) s) (ce_L e)) ES = true /\
+  pairwise_b disjoint_edges_b ES = true /\
+  exists s' acc', edges_from_bonding true (fun _ => false) (map edge_of ES) s [] = Ok (s', acc') /\ length acc' = 2%nat.
+Proof. split; [vm_compute; reflexivity|]. split; [vm_compute; reflexivity|]. eexists. eexists. split; [vm_compute; reflexivity|reflexivity]. Qed.
+
 Print Assumptions C01_bonding_partial.
+Print Assumptions C01_bonding_step.
+Print Assumptions C01_disjointness_test_sound.
 Print Assumptions C01_hypothesis_test_sound.
